@@ -72,6 +72,9 @@ func main() {
 		}
 		os.Exit(0)
 	}
+	if os.Getenv("YF_KEY_NOEXPAND") != "" {
+		core.NoKeyExpansion = true // maintenance (tools/remapkeys.py): print the short form of every key
+	}
 	run, ok := rules.Registry[*prop]
 	if !ok {
 		fmt.Printf("unknown property %q\n", *prop)
